@@ -102,6 +102,8 @@ def run_check(pid, tier, replay=None):
             prop.explore(ctx, depth)
         else:
             ctx.notes.append('driver unavailable: exploration skipped')
+    except C.EnoughFailures:
+        ctx.notes.append('exploration stopped early: enough failing inputs collected')
     except C.Infra as e:
         print(f'INFRA: {e}', flush=True)
         traceback.print_exc()
@@ -119,6 +121,9 @@ def run_check(pid, tier, replay=None):
             ctx.escalated = True
             try:
                 prop.explore(ctx, 'thorough' if depth == 'quick' else 'thorough')
+            except C.EnoughFailures:
+                ctx.notes.append('search stopped: enough failing inputs collected')
+                break
             except C.Infra as e:
                 ctx.notes.append(f'search aborted: {e}')
                 break
